@@ -75,6 +75,9 @@ def main(maxround, maxlen, dmax, out, seed, nrandom):
         rounds = rnd.sample(range(0, 9), n)
         d = rnd.randint(2, 4)
         rows.append(one(rounds, d, [rnd.randint(0, 1) for _ in range(d)]))
+    # long blocks (deep circuit graphs): the counts a real experiment uses are far beyond the enumerated universe
+    for rounds, d in ([([2, 60], 2), ([70], 3)] if nrandom <= 10 else [([2, 60], 2), ([70], 3), ([120, 0, 3], 2), ([1, 90], 4)]):
+        rows.append(one(rounds, d, [rnd.randint(0, 1) for _ in range(d)]))
     json.dump(rows, open(out, 'w'))
     print(len(rows))
 
